@@ -271,3 +271,31 @@ package keeper
 //@        val(res_GetOrCalculateOperatorUSDValues_0.SelfUSDValue) >= val(res_GetAVSMinimumSelfDelegation_0) && arg_avsAddr == avsAddr
 //@   before[C05.oi.minself,C20.oi.minself] SetOptedInfo requires val(res_GetOrCalculateOperatorUSDValues_0.SelfUSDValue) >= val(res_GetAVSMinimumSelfDelegation_0) &&
 //@        arg_avsAddr == avsAddr && arg_operatorAddr == accstr(operatorAddress)
+
+// ---------------------------------------------------------------------------------------------
+// C18 (initialising a fresh chain from the exported genesis reproduces the operator module's state exactly): every
+// exported operator record is stored as exported - including the time of its last commission update, which limits how
+// soon the commission may change again.
+//@ define opInfoKey(a) = cat(g("x/operator/types.KeyPrefixOperatorInfo"), a)
+// registration: the commission counts as updated at the time of registration
+//@ func (*Keeper).SetOperatorInfo
+//@   requires info != nil
+//@   flag pure=ClientChainExists,IsOperator
+//@   flag noframe
+//@   ensures[C18.soi.time] err == nil ==> get(ctx, "operator", opInfoKey(bech32addr(addr))) != nil &&
+//@        unm["x/operator/types.OperatorInfo"](get(ctx, "operator", opInfoKey(bech32addr(addr)))).Commission.UpdateTime == ctx.time
+//@ loop #1
+//@   invariant info.Commission.UpdateTime == ctx.time && state(ctx) == old(state(ctx))
+
+//@ func (Keeper).InitGenesis
+//@   flag noframe
+//@   flag pure=NewWrappedConsKeyFromHex,ToTmProtoKey,ToConsAddr
+//@   flag havoc=setOperatorConsKeyForChainIDUnchecked,SetAllOptedInfo,SetAllOperatorUSDValues,SetAllAVSUSDValues,SetAllSlashStates,SetAllPrevConsKeys,SetAllOperatorKeyRemovals
+//@ loop #1
+//@   invariant -1 <= rangeindex && rangeindex < len(state.Operators)
+//@   step[C18.oig.exact] unm["x/operator/types.OperatorInfo"](get(ctx, "operator", opInfoKey(bech32addr(state.Operators[rangeindex].OperatorAddress)))).Commission.UpdateTime ==
+//@        old(state.Operators[rangeindex].OperatorInfo.Commission.UpdateTime)
+//@ loop #2
+//@   invariant true
+//@ loop #3
+//@   invariant true
